@@ -24,6 +24,7 @@ type harnessSpec struct {
 	Order    bool     // map-iteration order mode (C09)
 	Covers   []string // reachability witnesses that must be hit (vacuity guard)
 	MaxSteps int
+	Samples  int    // passing paths replayed natively per run (default 6)
 	Bound    string // human description of the bound for this harness
 }
 
@@ -180,7 +181,7 @@ func cmdCheck(args []string) int {
 			Harness: hs.Func, PkgPath: pkgSpecs[hs.Pkg].Path, Workers: *workers,
 			Solver: []string{"z3", "-in"}, TimeoutMS: timeout,
 			Cfg:      ex.Config{MaxSteps: maxSteps, MaxFrames: 20000, OrderMode: hs.Order, OrderBudget: 1 + tier},
-			Deadline: time.Now().Add(budget), Samples: 6, Verbose: os.Getenv("BKLSYM_VERBOSE") != "",
+			Deadline: time.Now().Add(budget), Samples: nz(hs.Samples, 6), Verbose: os.Getenv("BKLSYM_VERBOSE") != "",
 		})
 		if err != nil {
 			fmt.Fprintf(os.Stderr, "explore %s: %v\n", hs.Func, err)
@@ -368,6 +369,13 @@ func cmdCheck(args []string) int {
 	}
 	fmt.Printf("PASS property=%s tier=%s states=%d obligations=%d/%d validated=%d wall=%.0fs\n", ps.ID, *tierS, totalStates, totalDischarged, totalAsserts, tracesValidated, time.Since(start).Seconds())
 	return 0
+}
+
+func nz(n, d int) int {
+	if n == 0 {
+		return d
+	}
+	return n
 }
 
 func max1(n int) int {
